@@ -132,6 +132,44 @@ template <class T> static bool parseT(const std::string& s, T& out) {
 static std::string mname(ll n) { return "name" + std::to_string(n); }
 
 // ------------------------------------------------------------------------------------------------------------
+// `h = T(v)` through ValueStore::operator=(const T&) (op 3, assign_val).
+// Value semantics make the origin of the assigned object invisible, so the model op assign_val(i, ty, v) specifies the
+// result wherever the argument lives.  Whenever the holder's CURRENT value already contains an object equal to T(v),
+// the harness passes an ALIAS of that object - the argument then lives inside the very value operator= is about to
+// release (an implementation that releases the old value before it has copied the new one reads a dead object):
+//   T(v) held                          h = value_cast<T>(h)                         (every type, in place and heap)
+//   PS(v) held, std::string asked      h = value_cast<PS>(h).s                      (heap record -> its heap member)
+//   PV(v) held, vector<int> asked      h = value_cast<PV>(h).v                      (heap record -> its heap member)
+//   vector<int>(v) held, int asked     h = value_cast<std::vector<int> >(h)[0]      (heap container -> in-place element)
+// otherwise an independent object is passed.  The model's assign_val constructs the argument T(v) first and destroys it
+// last (one more instrumented object): the harness keeps exactly that object alive around the assignment in both
+// forms, so that ids and constructor / destructor counts stay those of the model.
+// ------------------------------------------------------------------------------------------------------------
+template <class T> static const T* partOf(const Po::ValueStore&, ll, T*) { return 0; }
+static const std::string* partOf(const Po::ValueStore& s, ll v, std::string*) {
+	const PS* p = Po::value_cast<PS>(&s);
+	return p && p->get() == v && p->s == sval(v) ? &p->s : 0;
+}
+static const std::vector<int>* partOf(const Po::ValueStore& s, ll v, std::vector<int>*) {
+	const PV* p = Po::value_cast<PV>(&s);
+	return p && p->get() == v && p->v == TT<std::vector<int> >::make(v) ? &p->v : 0;
+}
+static const int* partOf(const Po::ValueStore& s, ll v, int*) {
+	const std::vector<int>* p = Po::value_cast<std::vector<int> >(&s);
+	return p && !p->empty() && (*p)[0] == (int)v ? &(*p)[0] : 0;
+}
+template <class T> static const T* aliasOf(const Po::ValueStore& s, ll v) {
+	if (s.empty()) return 0;
+	if (const T* p = Po::value_cast<T>(&s)) return TT<T>::value(*p) == v ? p : 0;
+	return partOf(s, v, (T*)0);
+}
+template <class T> static void assignVal(Po::ValueStore& s, ll v) {
+	T arg(TT<T>::make(v));                 // the T(v) of the model (guaranteed elision: one object)
+	if (const T* a = aliasOf<T>(s, v)) { s = *a; }
+	else                               { s = arg; }
+}
+
+// ------------------------------------------------------------------------------------------------------------
 // part A
 // ------------------------------------------------------------------------------------------------------------
 struct CObj { int ty; void* p; };
@@ -222,7 +260,7 @@ struct A {
 				ll i = c.next(), ty = c.next(), v = c.next();
 				if (okh(i) && okty(ty)) dispatch(ty, [&](auto* tag) { typedef TYPE_OF(tag) T;
 					if (op == 1) { Po::ValueStore* n = new Po::ValueStore(TT<T>::make(norm(ty, v))); delete h[(size_t)i]; h[(size_t)i] = n; }
-					else         { *h[(size_t)i] = TT<T>::make(norm(ty, v)); }
+					else         { assignVal<T>(*h[(size_t)i], norm(ty, v)); }
 				});
 			}
 			else if (op == 2 || op == 4) {
